@@ -344,6 +344,17 @@ def run(ctx):
         right = ['SpatialVelocity', 'SpatialForce', 'SpatialMomentum'][rng.integers(3)]
         via = 'matmul' if (left == 'SpatialVelocity' and rng.random() < 0.5) else 'cross'
         p = dict(left=left, right=right, v=vec6(rng), o=vec6(rng), via=via, m=vec6(rng))
+        if rng.random() < 0.25:      # structured operands: pure translation / pure rotation (one half exactly zero), a single component
+            for key in ('v', 'o'):
+                r_ = rng.random()
+                if r_ < 0.3:
+                    p[key] = np.r_[np.zeros(3), p[key][3:]]
+                elif r_ < 0.6:
+                    p[key] = np.r_[p[key][:3], np.zeros(3)]
+                elif r_ < 0.75:
+                    e_ = np.zeros(6)
+                    e_[rng.integers(6)] = p[key][0]
+                    p[key] = e_
         if rng.random() < 0.3:       # integer-valued data supplied as integers on either side
             FORMS6 = ['float', 'int_array', 'int_list', 'list']
             p['lform'], p['rform'] = FORMS6[rng.integers(4)], FORMS6[rng.integers(4)]
